@@ -83,11 +83,17 @@ def refChildren (k : Kind) : Bool :=
   (k == .boundproc && C05.childrenLists.contains "bindings")
   || (k == .finalproc && C05.nonListChildren.contains "procedure")
 
+/-- a declared result variable (`result(r)`) among the children -/
+def Ents.hasRetvar : Ents → Bool
+  | .nil => false
+  | .cons e rest => e.info.kind == .retvar || rest.hasRetvar
+
 /-- is the entity's own name found among its children (`procedure` of an interface seen as the
-    context, `retvar` of a function)? -/
-def selfChild (asCtx : Bool) (k : Kind) : Bool :=
+    context, `retvar` of a function - which is called like the function unless it was declared
+    with `result(r)`)? -/
+def selfChild (asCtx : Bool) (k : Kind) (kids : Ents) : Bool :=
   (isBody k && asCtx && C05.nonListChildren.contains "procedure")
-  || (k == .function && C05.nonListChildren.contains "retvar")
+  || (k == .function && !kids.hasRetvar && C05.nonListChildren.contains "retvar")
 
 /-- `e.find_child(n)`; `own ck`: a child of kind `ck` of `e` has a page of its own, `pg`: the
     page on which `e` itself is described; `asCtx`: `e` is the context (not its parent) -/
@@ -99,7 +105,7 @@ def findChild (E : LinkEnv) (asCtx : Bool) (own : Kind → Bool) (pg : Nat) (e :
   | none =>
     match firstNamed E.nm n (if refChildren k then refEnts E.orig e.info.refs else []) with
     | some r => some ⟨r.info.id, r.info.id, true⟩
-    | none => if selfChild asCtx k && E.nm e.info.id = n then some ⟨e.info.id, pg, false⟩ else none
+    | none => if selfChild asCtx k e.kids && E.nm e.info.id = n then some ⟨e.info.id, pg, false⟩ else none
 
 /-! ### `Project.find`: the page lists of the project, by list name -/
 
